@@ -420,7 +420,9 @@ class Parser:
                 code_gen.add_instruction(OpCode.PUSHQ, value)
             else:
                 code_gen.push(value)
-        elif value is not dest:
+        elif move_inst is OpCode.MOVEQ or value is not dest:
+            # Only a variable or register moved onto itself is skipped; a
+            # constant may be spelled like the name it is assigned to.
             code_gen.add_instruction(move_inst, value, dest)
 
         return self.next_token()
